@@ -4,6 +4,7 @@
 package main
 
 import (
+	"bytes"
 	"crypto/sha256"
 	"encoding/hex"
 	"encoding/json"
@@ -88,7 +89,36 @@ func (o obs) coq() string {
 
 // ---- running the real backends ----
 
-func runImpl(f storage.File, ops []op) (out []obs) {
+// neighbour is activity on ANOTHER file of the same factory between two operations of the file under test
+// (files are independent: nothing the file under test returns may depend on it): parts are allocated, written,
+// finalized, read back and removed, with bytes (0xEE..) that occur in no generated sequence.
+func neighbour(fa storage.Factory, name string) {
+	defer func() { recover() }()
+	nf, err := fa.NewFile(name)
+	if err != nil {
+		return
+	}
+	for k := 0; k < 7; k++ {
+		p := nf.NewPart()
+		w := p.Writer()
+		if k < 6 {
+			// small writes: a recycled buffer would be overwritten in place, not reallocated
+			for j := 0; j < 6; j++ {
+				w.Write(bytes.Repeat([]byte{0xEE - byte(k)}, 1+j))
+			}
+		} else {
+			w.Write(bytes.Repeat([]byte{0xE0}, 700))
+		}
+	}
+	nf.Finalize()
+	if r, err := nf.Reader(); err == nil {
+		io.Copy(io.Discard, r)
+		r.Close()
+	}
+	nf.Remove()
+}
+
+func runImpl(f storage.File, ops []op, noise func(i int)) (out []obs) {
 	var parts []storage.Part
 	var writer io.WriteSeeker
 	var handles []io.ReadCloser
@@ -179,6 +209,9 @@ func runImpl(f storage.File, ops []op) (out []obs) {
 				out = append(out, obs{K: "Num", Num: int64(f.Size())})
 			}
 		}()
+		if noise != nil && !panicked {
+			noise(i)
+		}
 		if panicked {
 			// the op that panicked and everything after it is reported as Panic
 			out = out[:i]
@@ -568,7 +601,16 @@ func main() {
 	for id, ops := range inputs {
 		rf := storage.NewFactoryRAM()
 		fr, _ := rf.NewFile("x")
-		ramObs := runImpl(fr, ops)
+		// every third sequence runs next to a busy neighbour file of the same factory
+		var ramNoise, diskNoise func(i int)
+		if id%3 == 1 {
+			ramNoise = func(i int) {
+				if (i+id)%4 != 0 {
+					neighbour(rf, fmt.Sprintf("n%d_%d", id, i))
+				}
+			}
+		}
+		ramObs := runImpl(fr, ops, ramNoise)
 
 		fname := fmt.Sprintf("f%d.bin", id)
 		df := storage.NewFactoryDisk(diskDir)
@@ -576,7 +618,14 @@ func main() {
 		if err != nil {
 			panic(err)
 		}
-		diskObs := runImpl(fd, ops)
+		if id%3 == 1 {
+			diskNoise = func(i int) {
+				if (i+id)%4 != 0 {
+					neighbour(df, fmt.Sprintf("n%d_%d.bin", id, i))
+				}
+			}
+		}
+		diskObs := runImpl(fd, ops, diskNoise)
 		fileBytes, ferr := os.ReadFile(filepath.Join(diskDir, fname))
 		hasFinalize := false
 		for _, o := range ops {
